@@ -1359,23 +1359,34 @@ def _f(v):
 def run(chk, replay=None):
     from translate import tx_sections, tx_twoport
     tinfo = {}
+    props = ['Lcapy/Props/C07.lean', 'Lcapy/Props/C07TwoPort.lean', 'Lcapy/Props/C07Simplify.lean', 'Lcapy/Props/C07Netlist.lean']
+    helpers = ['Lcapy/Proofs/OnePort.lean', 'Lcapy/Proofs/OnePortLine.lean', 'Lcapy/Proofs/OnePortSimplify.lean',
+               'Lcapy/Proofs/OnePortScan.lean', 'Lcapy/Proofs/OnePortNetlist.lean',
+               'Lcapy/Spec/OnePort.lean', 'Lcapy/Spec/OnePortExec.lean', 'Lcapy/Spec/Sections.lean',
+               'Lcapy/Model/OnePort.lean', 'Lcapy/Model/OnePortGuard.lean', 'Lcapy/Model/OnePortNetlist.lean',
+               'Lcapy/Model/CRat.lean', 'Lcapy/Driver/C07.lean']
+    generated = {}
     for (mod, fname) in ((tx_twoport, 'TwoPort.lean'), (tx_sections, 'Sections.lean')):
         text, info = mod.generate(common.REPO)
-        gen_path = os.path.join(common.LEAN, 'Lcapy', 'Generated', fname)
-        with common.LakeLock():
-            if not os.path.exists(gen_path) or open(gen_path).read() != text:
-                with open(gen_path, 'w') as f:
-                    f.write(text)
+        generated[os.path.join(common.LEAN, 'Lcapy', 'Generated', fname)] = text
         tinfo[fname] = {'definitions': len(info['defs']), 'unparsed': info['unparsed']}
     chk.coverage['translator'] = {'status': 'ok', 'files': tinfo}
-    broken = chk.lean(['Lcapy/Props/C07.lean', 'Lcapy/Props/C07TwoPort.lean', 'Lcapy/Props/C07Simplify.lean',
-                       'Lcapy/Props/C07Netlist.lean'],
-                      helper_files=['Lcapy/Proofs/OnePort.lean', 'Lcapy/Proofs/OnePortLine.lean', 'Lcapy/Proofs/OnePortSimplify.lean',
-                                    'Lcapy/Proofs/OnePortScan.lean', 'Lcapy/Proofs/OnePortNetlist.lean',
-                                    'Lcapy/Spec/OnePort.lean', 'Lcapy/Spec/OnePortExec.lean', 'Lcapy/Spec/Sections.lean',
-                                    'Lcapy/Model/OnePort.lean', 'Lcapy/Model/OnePortGuard.lean', 'Lcapy/Model/OnePortNetlist.lean',
-                                    'Lcapy/Model/CRat.lean', 'Lcapy/Driver/C07.lean'],
-                      leanchecker=(chk.tier == 'thorough'))
+
+    def write_generated():
+        with common.LakeLock():
+            for gen_path, text in generated.items():
+                if not os.path.exists(gen_path) or open(gen_path).read() != text:
+                    with open(gen_path, 'w') as f:
+                        f.write(text)
+    # another check (C08, or a run of this one against a private worktree) regenerates the same files: the lock is
+    # released between writing and building, so make sure that what was built is what was generated here
+    for attempt in range(3):
+        write_generated()
+        broken = chk.lean(props, helper_files=helpers, leanchecker=(chk.tier == 'thorough'))
+        if all(os.path.exists(g) and open(g).read() == text for g, text in generated.items()):
+            break
+    else:
+        raise common.Infra('Generated/TwoPort.lean or Sections.lean kept being overwritten by a concurrent run')
     drv = chk.get_driver()
     L = Lc()
     state = {'disagreements': [], 'counterexamples': 0}
